@@ -63,13 +63,13 @@ theorem ocp_converged_certifies (O : Oracles α) (dir : Dir D α) (P : Prob α) 
     exfalso
     revert h hconv
     unfold run
-    cases hi : initState O P d0 pr u0 gV gQ gS e0 with
+    cases hi : initState O P d0 pr stop u0 gV gQ gS e0 with
     | inl t => simp
     | inr s =>
       simp only []
       intro hc hne
       have := mainLoop_exc_status O dir P pr stop oot u0 y mu errz0 (pr.maxIter + 2) s
-        (initState_status O P d0 pr u0 gV gQ gS e0 s hi) hne
+        (initState_status O P d0 pr stop u0 gV gQ gS e0 s hi) hne
       rw [this] at hc; exact absurd hc (by decide)
   · obtain ⟨sh, eps, status, hg, hk, he, hst, hnb, hr⟩ := h
     have hexit := (C03_Ocp.ocp_exit_contract O dir P d0 pr stop oot u0 y mu errz0 gV gQ gS e0 hτ hfuel).1
@@ -86,8 +86,9 @@ theorem ocp_converged_certifies (O : Oracles α) (dir : Dir D α) (P : Prob α) 
       exact (C06_Ocp.ocp_converged_iff _ _ _ _ _ _ _ _).mp hst.symm
 where
   /-- the statistics start with status `Busy` and keep it until the exit block -/
-  initState_status (O : Oracles α) (P : Prob α) (d0 : D) (pr : Params α) (u0 gV gQ : Vec α) (gS e0 : α)
-      (s : St α D) (h : initState O P d0 pr u0 gV gQ gS e0 = .inr s) : s.stats.status = .Busy := by
+  initState_status (O : Oracles α) (P : Prob α) (d0 : D) (pr : Params α) (stop : Nat → Bool)
+      (u0 gV gQ : Vec α) (gS e0 : α)
+      (s : St α D) (h : initState O P d0 pr stop u0 gV gQ gS e0 = .inr s) : s.stats.status = .Busy := by
     unfold initState at h
     simp only [] at h
     split_ifs at h
